@@ -9,7 +9,8 @@ Per level the first sub-map entry (the spine) is expanded with the full choice o
 sub-maps get the fixed content {a: handle}: get_static_map() treats every map independently, so
 exhaustive name sets per map plus nesting along one spine cover the interactions.
 """
-from itertools import combinations, product
+import re
+from itertools import combinations, permutations, product
 
 from desper.model import Handle, ResourceMap, StaticResourceMap
 
@@ -23,10 +24,18 @@ SUB4 = ['a', 'b c', '__x', 'class']
 SUB3 = ['a', '__x', '1x']
 SUB2 = ['a', '__x']
 SUB3B = ['a', 'b c', '__x']
+# pairs that differ only by a non-word character versus '_' (or the '_' put in front of a leading digit)
+SAN = ['b c', 'b_c', 'n w', 'n_w', '1x', '_1x']
 # boundary shapes of Python's private-name mangling rule (a name in a class body / in __slots__ is mangled iff it
 # starts with two underscores and does not end with two underscores); all are identifiers, none is a member of object
 MANGLE = ['__x_', '__x_y', '__x', '__', '___', '__x__', '_x_', 'x__']
 MANGLE6 = ['__x_', '__x_y', '__', '___', '_x_', 'x__']
+
+
+def sanitised(name):
+    """attribute-friendly spelling: non-word characters -> '_', leading digit gets a '_' in front"""
+    alias = re.sub(r'\W', '_', name)
+    return '_' + alias if alias[:1].isdigit() else alias
 
 
 class ValHandle(Handle):
@@ -88,11 +97,12 @@ def build(sp, cx, levels, depth, label):
     """a fresh map populated from solver choices; returns its model Node"""
     real = cx.map()
     node = Node(real)
-    names, nmax = levels[depth]
+    names, nmax = levels[depth][:2]
+    ordered = len(levels[depth]) > 2 and levels[depth][2] == 'ordered'     # both insertion orders
     nk = 3 if depth + 1 < len(levels) else 2        # handle, layered handle, (sub-map)
     configs = [((), ())]
     for n in range(1, nmax + 1):
-        for combo in combinations(names, n):
+        for combo in (permutations if ordered else combinations)(names, n):
             for kinds in product(range(nk), repeat=n):
                 configs.append((combo, kinds))
     combo, kinds = sp.pick(configs, label)          # one finite-domain solver variable per map
@@ -126,6 +136,15 @@ def build(sp, cx, levels, depth, label):
             sp.note('%s[%r] = sub-map with names %r' % (label, k, sorted(sub.kids)))
         if not k.isidentifier():
             sp.cover('non-identifier')
+        for other in combo:
+            if other != k and sanitised(other) == sanitised(k):
+                # two names of one map that differ only by a non-word character versus '_'
+                sp.cover('sanitised-name-collision')
+                kk = dict(zip(combo, kinds))
+                sp.cover('sanitised-collision-%s' % (
+                    'handle-vs-map' if (kk[k] == 2) != (kk[other] == 2) else 'maps' if kk[k] == 2 else 'handles'))
+                sp.cover('sanitised-collision-identifier-%s' % (
+                    'first' if [x for x in combo if x in (k, other)][0].isidentifier() else 'last'))
         if k.startswith('__') and k.endswith('_') and not k.endswith('__'):
             sp.cover('mangled-with-one-trailing-underscore')
         if k.startswith('__') and k.endswith('__'):
@@ -469,7 +488,7 @@ def compare_frozen(sp, snap, frozen, prefix, when):
 
 
 def h_static(sp, levels=((NAMES, 2), (SUB4, 2), (SUB2, 1)), rots=1, mutate=False, flavours=('plain',), alias=False):
-    levels = [(list(a), b) for a, b in levels]
+    levels = [(list(lv[0]),) + tuple(lv[1:]) for lv in levels]
     rot = sp.choose(rots, 'value-rotation')
     flavour = sp.pick(list(flavours), 'flavour')       # instance flavour of every handle and map object
     cx = Ctx(rot, flavour)
@@ -478,7 +497,7 @@ def h_static(sp, levels=((NAMES, 2), (SUB4, 2), (SUB2, 1)), rots=1, mutate=False
         sp.cover('flavour-' + flavour)
     model = build(sp, cx, levels, 0, 'm')
     m = model.real
-    absent_names = list(NAMES) + sorted({n for names, _ in levels for n in names} - set(NAMES))
+    absent_names = list(NAMES) + sorted(({n for lv in levels for n in lv[0]} | {'b_c', 'n_w', '_1x'}) - set(NAMES))
     try:
         snap = m.get_static_map()
     except Exception as ex:         # noqa
@@ -569,6 +588,10 @@ _ALIAS_REQ = ['old-snapshot-rechecked', 'old-snapshot-after-tomap', 'old-snapsho
               'alias-mutation-direct', 'alias-mutation-first-owner', 'alias-mutation-other-owner',
               'handle-compared', 'deep-handle-compared', 'submap-compared', 'attacked-submap', 'layered',
               'non-identifier']
+_SAN_REQ = ['sanitised-name-collision', 'sanitised-collision-handles', 'sanitised-collision-maps',
+            'sanitised-collision-handle-vs-map', 'sanitised-collision-identifier-first',
+            'sanitised-collision-identifier-last', 'attack-on-uncached-handle-name', 'layered', 'non-identifier',
+            'attr-access', 'handle-compared', 'deep-handle-compared', 'submap-compared', 'attacked-submap']
 _FLAV_REQ = _TAGS + ['flavour-falsy', 'flavour-empty', 'flavour-equal']
 _MANGLE_REQ = ['attack-on-uncached-handle-name', 'attack-on-cached-handle-name', 'layered', 'mangling-style', 'mangling-style-all-identifiers', 'mangled-with-one-trailing-underscore',
                'only-underscores', 'dunder-style', 'attr-access', 'handle-compared', 'deep-handle-compared',
@@ -581,7 +604,10 @@ TIERS = {
               ('static', dict(levels=[[['a', 'b c'], 2], [SUB3B, 2], [SUB2, 1]], rots=1, mutate=True),
                {'required': _MUT_REQ}),
               ('static', dict(levels=[[NAMES, 2], [SUB2, 1]], rots=1, flavours=FLAVOURS), {'required': _FLAV_REQ}),
-              ('static', dict(levels=[[['a', 'b c'], 2], [SUB2, 1]], rots=1, alias=True), {'required': _ALIAS_REQ})],
+              ('static', dict(levels=[[['a', 'b c'], 2], [SUB2, 1]], rots=1, alias=True), {'required': _ALIAS_REQ}),
+              # names that collide after replacing non-word characters by '_', handles and sub-maps, both orders
+              ('static', dict(levels=[[SAN, 2, 'ordered'], [['b c', 'b_c'], 2, 'ordered']], rots=1),
+               {'required': _SAN_REQ})],
     'thorough': [('static', dict(levels=[[NAMES, 3], [SUB3B, 2], [SUB2, 1]], rots=1)),
                  ('static', dict(levels=[[SUB5, 2], [SUB5, 2], [SUB3, 1]], rots=1)),
                  ('static', dict(levels=[[NAMES, 2], [SUB3B, 2], [SUB2, 1]], rots=3)),
@@ -599,7 +625,13 @@ TIERS = {
                  ('static', dict(levels=[[['a', 'b c'], 2], [SUB2, 2], [['a'], 1]], rots=1, alias=True),
                   {'required': _ALIAS_REQ}),
                  ('static', dict(levels=[[SUB3B, 2], [SUB2, 1]], rots=1, alias=True, flavours=('plain',) + FLAVOURS),
-                  {'required': _ALIAS_REQ + ['flavour-equal', 'flavour-falsy', 'flavour-empty']})],
+                  {'required': _ALIAS_REQ + ['flavour-equal', 'flavour-falsy', 'flavour-empty']}),
+                 ('static', dict(levels=[[SAN, 2, 'ordered'], [['b c', 'b_c'], 2, 'ordered']], rots=1),
+                  {'required': _SAN_REQ}),
+                 ('static', dict(levels=[[['b c', 'b_c', '1x', '_1x'], 3, 'ordered'], [['b c', 'b_c'], 2, 'ordered']],
+                       rots=1), {'required': _SAN_REQ}),
+                 ('static', dict(levels=[[['b c', 'b_c', 'a'], 2, 'ordered'], [['b c', 'b_c'], 2, 'ordered']], rots=1,
+                       mutate=True), {'required': _SAN_REQ + ['nested-mutation-resnapshot', 'old-snapshot-rechecked']})],
 }
 BUDGET_S = {'quick': 300, 'thorough': 1500}
 
@@ -619,6 +651,8 @@ BOUNDS = {
     'quick': "names a,b,'b c','1x',class,_y,__x,__x__,e-acute,'' ; root map: every set of <=2 names x "
              "{handle, layered handle, sub-map}; spine sub-map: <=2 names of a,'b c',__x; third level <=1 of a,__x; "
              "mangling shapes: root <=2 of __x_,__x_y,__x,__,___,__x__,_x_,x__ x kinds, spine <=1 of them; "
+             "sanitised-name collisions: root <=2 (both insertion orders) of 'b c',b_c,'n w',n_w,1x,_1x x kinds, "
+             "spine <=2 of 'b c',b_c; "
              "aliasing: root <=2 of a,'b c', spine <=1 of a,__x, x shared sub-map x {other root, same parent, sibling} "
              "x which owner attached last x one change inside the shared map by 3 routes; "
              "re-snapshot phase: root <=2 of a,'b c' with the same lower levels, x every mutation {add 'new' / "
@@ -626,6 +660,8 @@ BOUNDS = {
     'thorough': "root map: every set of <=3 of the 10 names x kinds, spine sub-map <=2 of a,'b c',__x, third "
                 "level <=1 of a,__x; root and second level <=2 of a,'b c',__x,class,'' with third level <=1 of "
                 "a,__x,1x; plus the quick universe with the three rotations of loaded values (token, None, 0); "
+                "sanitised-name collisions: the quick entry, root <=3 ordered of 'b c',b_c,1x,_1x, and 'b c',b_c,a with "
+                "the re-snapshot phase; "
                 "mangling shapes: root <=3 and spine <=2 of the 8 shapes; the shapes + 'b c' with the re-snapshot phase; "
                 "re-snapshot phase: root and spine <=2 of a,'b c',__x with third level <=1 of a,__x, and root <=2 "
                 "of the 10 names with spine <=1 of a,__x and third level <=1 of a, x every mutation",
